@@ -202,3 +202,34 @@ ignore_warnings_and_count = FunctionContract(
 )
 CONTRACTS.append(ignore_warnings_and_count)
 LEMMAS = [L_split]
+
+# ------------------------------------------------------------------ maxwarn (bin/martinize2): the -maxwarn grammar
+SPEC_MW = {
+    'colons1': "lambda s: s.find(':') >= 0 and s.find(':') == s.rfind(':')",
+    'before': "lambda s: s[:s.find(':')]",
+    'after': "lambda s: s[s.find(':') + 1:]",
+}
+
+
+def setup_maxwarn(cx):
+    ap = Obj('argparse')
+    from pyvc.interp import ExcClass
+    ap.attrs['ArgumentTypeError'] = ExcClass('ArgumentTypeError')
+    cx.spec_env['argparse'] = ap
+    return dict(value=cx.val('value', TCStr))
+
+
+maxwarn = FunctionContract(
+    'bin/martinize2', 'maxwarn', 'C08', setup=setup_maxwarn, spec_defs=SPEC_MW,
+    ensures=[
+        # '<n>' -> a blanket allowance of n;  '<type>' -> the type is waived by name;  '<type>:<n>' -> a numeric limit
+        "implies(not (':' in value) and is_int_literal(value), result[0] is None and result[1] == int_of_str(value))",
+        "implies(not (':' in value) and not is_int_literal(value), result[0] == value and result[1] is None)",
+        "implies(':' in value, colons1(value) and is_int_literal(after(value)) and result[0] == before(value) and "
+        "   result[1] == int_of_str(after(value)))",
+    ],
+    # everything else is rejected
+    raises={'ArgumentTypeError': ["':' in value and not (colons1(value) and is_int_literal(after(value)))"]},
+    canary=[("return (splitted[0], count)", "return (splitted[1], count)"), ("elif len(splitted) == 2:", "elif len(splitted) >= 2:")],
+)
+CONTRACTS.append(maxwarn)
